@@ -8,22 +8,27 @@ import lib
 
 ID = 'C08'
 PROPS_FILE = 'Props/C08.v'
-MODEL_FILES = ['Linker/Linker.v', 'Linker/LinkerF.v']
-K_NAME = ('K_linker (Linker.linker_solve_t_M / linker_solve_M / linker_ctor_M instantiated with PrimFloat vs BaseLinker.solve_t / '
-          'solve / __init__ on scripted submodels and scripted linker hooks; twin: Solver.solve_t_M vs BaseModel.solve_t)')
-RULE = ('linkers over 0-4 scripted submodels (1-3 variables each, differing LAGS/LEADS, differing check lists) and 0-2 linker variables; '
+MODEL_FILES = ['Linker/Linker.v', 'Linker/LinkerRange.v', 'Linker/LinkerF.v']
+K_NAME = ('K_linker (Linker.linker_solve_t_M / LinkerRange.linker_solve_span_M (constructor model + SolveAll.iter_periods_M + fold) / '
+          'linker_ctor_M instantiated with PrimFloat vs BaseLinker.solve_t / solve(start=, end=) / __init__ on scripted submodels and scripted linker hooks; twin: Solver.solve_t_M vs BaseModel.solve_t)')
+RULE = ('linkers over 1-4 submodels BUILT by fsic from C01-grammar programs (7 templates: static, lag 1/2, lead 1/2, two-equation '
+        'simultaneous blocks; differing LAGS/LEADS) cross-linked through the linker hooks, solve_t and solve(start=, end=) — their recorded '
+        'per-pass values instantiate the model oracle; linkers over 0-4 scripted submodels (1-3 variables each, differing LAGS/LEADS, differing check lists) and 0-2 linker variables; '
         'scripted hooks that write linker variables and cross-link submodel variables; every subset and order of `submodels=` incl. '
         'duplicates and an unknown id at each position; positive/negative/out-of-span t; min_iter 0..max_iter+2, max_iter 0..4 (and <0), '
         'tol in {1e-10, 0.5, 1, 0, 1e-300}, failures; exhaustive per-iteration move sequences (0, tol-1ulp, tol, tol+1ulp, 1.0 per check '
         'entry) up to the tier bound; non-finite values; raising hooks / submodels at every stage; offsets in and out of span; '
-        'multi-period solve(); single-model linker vs bare model twins; constructor over list / range / ndarray / Index spans. '
+        'multi-period solve(start=, end=) by label incl. defaults from the longest lag / lead, reversed and empty ranges, unknown labels, empty span; single-model linker vs bare model twins; constructor over list / range / ndarray / Index spans. '
         'Non-trivial = at least 2 iterations executed, or a stop exactly at k=min_iter or k=max_iter, or an exception path, or a '
         'constructor call over >= 2 submodels; distinct by hash of the whole case.')
-TRUSTED = ['scripted submodel / linker subclasses harness/scripted_linker.py (the same scripts are the Coq oracles of Linker/LinkerF.v)']
+TRUSTED = ['scripted submodel / linker subclasses harness/scripted_linker.py (the same scripts are the Coq oracles of Linker/LinkerF.v); '
+           'for submodels built by fsic.build_model the values each _evaluate leaves are recorded by an instrumented subclass and replayed as the oracle']
 ASSUMPTIONS = ['_evaluate of a submodel writes only that submodel\'s variable values; the four linker hooks write only variable values of the '
                'linker and of its submodels (not status / iterations, not the submodels dictionary) — the shape of the model\'s oracles',
                'submodel identifiers are hashable keys compared with == (modelled as natural numbers)',
-               'how Python evaluates `span != span` for list / range / ndarray / pandas Index operands (tabulated in Linker.span_ne, observed by K)']
+               'how Python evaluates `span != span` for list / range / ndarray / pandas Index operands (tabulated in Linker.span_ne, observed by K)',
+               'solve(start=, end=): labels of a list span are located with list.index (SolveAll.locate_index; other span containers are the subject of C05); '
+               'the theorems take the lookup as a Section variable']
 EXHAUSTIVE = {'quick': False, 'thorough': False}
 CASE_TIMEOUT = 30
 
@@ -40,7 +45,7 @@ KINDS = {'list': 'SList', 'range': 'SRange', 'ndarray': 'SArray', 'index': 'SArr
 
 # =========================================================================== implementation side
 def _comp_obs(m, prefix, nvars):
-    return {'vals': [[lib.fhex(x) for x in m.__dict__['_%s%d' % (prefix, i)]] for i in range(nvars)],
+    return {'vals': [[lib.fhex(x) for x in m.__dict__['_' + m.names[i]]] for i in range(nvars)],
             'status': [str(x) for x in m.__dict__['_status']],
             'iters': [int(x) for x in m.__dict__['_iterations']]}
 
@@ -61,6 +66,11 @@ def _observe(L, subs, shared, case):
          'log': list(shared),
          'selseen': L.__dict__['_selseen'],
          'snaps': [{k: [lib.fhex(x) for x in v] for k, v in sn.items()} for sn in L.__dict__['_snaps']]}
+    import scripted_linker as sl
+    rec = {str(s['id']): sl.recorded_passes(m) for s, m in zip(case['subs'], subs) if s.get('program')}
+    if rec:
+        o['recorded'] = rec
+        o['rec_clash'] = any(m.__dict__['_rec_clash'] for s, m in zip(case['subs'], subs) if s.get('program'))
     return o
 
 
@@ -104,18 +114,24 @@ def impl(case):
         return obs
     if kind == 'solve':
         span = L.span
-        if case.get('start') is not None:
+        if case.get('start_raw') is not None:
+            kw['start'] = case['start_raw']
+        elif case.get('start') is not None:
             kw['start'] = span[case['start']]
-        if case.get('end') is not None:
+        if case.get('end_raw') is not None:
+            kw['end'] = case['end_raw']
+        elif case.get('end') is not None:
             kw['end'] = span[case['end']]
         r, out = _out_of(lambda: L.solve(**kw))
         obs = _observe(L, subs, shared, case)
         if out is not None:
             obs['out'] = out
         else:
-            obs['out'] = ['ret', [bool(x) for x in r[2]]]
-            obs['indexes'] = [int(x) for x in r[1]]
-            obs['labels'] = [int(x) for x in r[0]]
+            obs['len'] = len(r[0])
+            obs['complete'] = len(r[0]) == len(r[1]) == len(r[2]) and not any(x is None for lst in r for x in lst)
+            obs['out'] = ['ret', [bool(x) for x in r[2] if x is not None]]
+            obs['indexes'] = [int(x) for x in r[1] if x is not None]
+            obs['labels'] = [int(x) for x in r[0] if x is not None]
         # twin: the same linker solved period by period with solve_t
         L2, subs2, shared2 = sl.instantiate_linker(fsic, case)
         kw2 = _kw(case)
@@ -244,6 +260,8 @@ def c_lexn(out):
     cls, scripted = out[1], out[2]
     if scripted:
         return '(LUser %d)' % CAUSE_TAG.get(cls, 99)
+    if cls == 'SolutionError':
+        return '(LExn (SolutionError None))'
     return '(LExn %s)' % EXN.get(cls, 'OtherError')
 
 
@@ -276,8 +294,18 @@ def c_moutcome(out):
     return '(Raise %s)' % EXN.get(cls, 'OtherError')
 
 
+def _with_recorded(case, obs):
+    """built submodels: their `_evaluate` is represented in the Coq model by the values it was seen to leave (obs['recorded'])"""
+    if not obs.get('recorded'):
+        return case
+    c = dict(case)
+    c['subs'] = [dict(s, passes=obs['recorded'].get(str(s['id']), {})) if s.get('program') else s for s in case['subs']]
+    return c
+
+
 def c_case(case, obs):
     kind = case['kind']
+    case = _with_recorded(case, obs)
     if kind == 'ctor':
         subs = lib.clist('(%d%%nat, mkSub %s %s %s)' % (s['id'], c_span(s['span']), lib.cZ(s['lags']), lib.cZ(s['leads'])) for s in case['subs'])
         span = 'None' if case.get('span') is None else '(Some %s)' % c_span(case['span'])
@@ -293,11 +321,14 @@ def c_case(case, obs):
                                                       c_opts(case['opts']), lib.cZ(case['t']), s0, xs, c_lout(obs['out']))
     if kind == 'solve':
         if obs['out'][0] == 'ret':
-            xr = '(inr %s)' % lib.clist(map(lib.cbool, obs['out'][1]))
+            vis = lib.clist('(%s, %s, %s)' % (lib.cZ(l), lib.cZ(i), lib.cbool(b)) for l, i, b in zip(obs['labels'], obs['indexes'], obs['out'][1]))
+            # an incompletely filled triple (None entries) has no counterpart in the model: force a disagreement
+            xr = '(inr (%d%%nat, %s))' % (obs['len'] if obs.get('complete') else obs['len'] + 1000, vis)
         else:
             xr = '(inl %s)' % c_lexn(obs['out'])
-        return '(CSolve %s %s %s %s %s %s %s %s)' % (c_subscripts(case), c_lscripts(case.get('hooks', {})), c_sel(case.get('sel')),
-                                                     c_opts(case['opts']), lib.clist(map(lib.cZ, case['periods'])), s0, xs, xr)
+        return '(CSolveSpan %s %s %s %s %s %s %s %s %s %s)' % (
+            c_subscripts(case), c_lscripts(case.get('hooks', {})), c_sel(case.get('sel')), c_opts(case['opts']),
+            lib.clist(map(lib.cZ, _labels(case))), _c_label(case, 'start'), _c_label(case, 'end'), s0, xs, xr)
     if kind == 'twin':
         s = case['subs'][0]
         d = obs['direct']
@@ -311,12 +342,25 @@ def c_case(case, obs):
     raise AssertionError(kind)
 
 
+def _labels(case):
+    return list(range(2000, 2000 + case['n']))
+
+
+def _c_label(case, which):
+    raw = case.get(which + '_raw')
+    if raw is not None:
+        return '(Some %s)' % lib.cZ(raw)
+    i = case.get(which)
+    return 'None' if i is None else '(Some %s)' % lib.cZ(2000 + i)
+
+
 def correspond(cases, obs, tag, tier):
     items = [c_case(c, o) for c, o in zip(cases, obs)]
     return lib.run_coq_cases(tag, PREAMBLE, items, 'bad_indices check_lcase 0%nat cs', shard=250)
 
 
 def explain(case, obs):
+    case = _with_recorded(case, obs)
     if case['kind'] == 'ctor':
         subs = lib.clist('(%d%%nat, mkSub %s %s %s)' % (s['id'], c_span(s['span']), lib.cZ(s['lags']), lib.cZ(s['leads'])) for s in case['subs'])
         span = 'None' if case.get('span') is None else '(Some %s)' % c_span(case['span'])
@@ -324,8 +368,9 @@ def explain(case, obs):
     s0 = c_lstate(case, case['core'], case['subs'], [])
     hooks = c_lscripts(case.get('hooks', {})) if case['kind'] != 'twin' else '[]'
     if case['kind'] == 'solve':
-        return lib.coq_eval('explainC08', PREAMBLE, 'f_linker_solve %s %s %s %s %s %s' % (
-            c_subscripts(case), hooks, c_sel(case.get('sel')), c_opts(case['opts']), lib.clist(map(lib.cZ, case['periods'])), s0))[-4000:]
+        return lib.coq_eval('explainC08', PREAMBLE, 'f_linker_solve_span %s %s %s %s %s %s %s %s' % (
+            c_subscripts(case), hooks, c_sel(case.get('sel')), c_opts(case['opts']), lib.clist(map(lib.cZ, _labels(case))),
+            _c_label(case, 'start'), _c_label(case, 'end'), s0))[-4000:]
     return lib.coq_eval('explainC08', PREAMBLE, 'f_linker_solve_t %s %s %s %s %s %s' % (
         c_subscripts(case), hooks, c_sel(case.get('sel')), c_opts(case['opts']), lib.cZ(case['t']), s0))[-4000:]
 
@@ -578,9 +623,27 @@ def oracle(case, obs):
             if obs['out'][:2] != ['raise', 'ValueError'] or not unchanged:
                 bad('solve|min_iter>max_iter', 'solve(min_iter > max_iter) must raise ValueError before anything changes; got %s unchanged=%s' % (obs['out'], unchanged))
             return fails
+        unchanged = obs['core'] == {k: case['core'][k] for k in ('vals', 'status', 'iters')} and not obs['log'] and \
+            all({k: d[k] for k in ('vals', 'status', 'iters')} == {k: s[k] for k in ('vals', 'status', 'iters')} for s, d in zip(case['subs'], obs['subs']))
+        if case['n'] == 0:
+            if obs['out'][:2] != ['raise', 'SolutionError'] or not unchanged:
+                bad('solve|empty-span', 'solve() over an empty span must raise SolutionError and change nothing; got %s' % obs['out'])
+            return fails
+        labels = _labels(case)
+        if any(case.get(w) is not None and case[w] not in labels for w in ('start_raw', 'end_raw')):
+            if obs['out'][:3] != ['raise', 'KeyError', False] or not unchanged:
+                bad('solve|unknown-label', 'solve(start/end = a label the span does not hold) must raise KeyError before any period is '
+                    'solved; got %s unchanged=%s' % (obs['out'], unchanged))
+            return fails
         tw = obs['twin']
-        if obs['out'][0] == 'ret' and obs.get('indexes') != case['periods']:
-            bad('solve|periods', 'solve() visited %s, expected %s' % (obs.get('indexes'), case['periods']))
+        if obs['out'][0] == 'ret' and (obs.get('indexes') != case['periods'] or obs.get('labels') != [labels[i] for i in case['periods']]
+                                       or obs.get('len') != len(case['periods']) or not obs.get('complete')):
+            bad('solve|periods', 'solve() visited %s (labels %s, len %s), expected %s: from `start` (default: the longest lag among the '
+                'submodels) to `end` (default: last period minus the longest lead)' % (obs.get('indexes'), obs.get('labels'), obs.get('len'), case['periods']))
+        # periods outside the range keep their status / iteration entries
+        for name, d, b in [('linker', obs['core'], case['core'])] + [(s['id'], d, s) for s, d in zip(case['subs'], obs['subs'])]:
+            if any(d['status'][i] != b['status'][i] or d['iters'][i] != b['iters'][i] for i in range(case['n']) if i not in case['periods']):
+                bad('solve|outside-range', 'status/iterations of %r changed at a period outside [start, end]' % (name,))
         same = (obs['out'][:3] == tw['out'][:3] and obs['core'] == tw['core'] and obs['log'] == tw['log']
                 and [{k: d[k] for k in ('vals', 'status', 'iters')} for d in obs['subs']] == [{k: d[k] for k in ('vals', 'status', 'iters')} for d in tw['subs']])
         if not same:
@@ -641,6 +704,8 @@ def bucket(case, obs):
         b.append('solved' if out[1] else 'unsolved')
     if case['opts']['offset']:
         b.append('off')
+    if any(s.get('program') for s in case['subs']):
+        b.append('built')
     return '/'.join(b)
 
 
@@ -810,7 +875,7 @@ def random_case(rng, kind='solve_t'):
     bad_vals = [float('nan'), float('inf'), float('-inf')]
     mx = rng.randint(0, 5) if rng.random() < 0.93 else rng.randint(-2, 0)
     mn = rng.randint(0, mx + 2) if mx >= 0 else rng.randint(-1, 2)
-    if kind == 'twin' and rng.random() < 0.85:
+    if kind in ('twin', 'solve') and rng.random() < 0.85:
         mn = rng.randint(0, max(mx, 0))
     opts = dict(min_iter=mn, max_iter=mx, tol=lib.fhex(tol), failures=rng.choice(['raise', 'ignore']),
                 errors=rng.choice(['raise'] * 3 + ['skip', 'ignore', 'replace', 'bogus']), catch_first_error=rng.random() < 0.6)
@@ -930,12 +995,96 @@ def random_case(rng, kind='solve_t'):
     if kind == 'solve':
         mlag = max([s['lags'] for s in subs] + [0])
         mlead = max([s['leads'] for s in subs] + [0])
-        if mlag + mlead >= n:
+        if mlag + mlead >= n and rng.random() < 0.5:      # otherwise: the default range is empty (longest lag + longest lead >= n)
             for s in subs:
                 s['lags'] = s['leads'] = 0
             mlag = mlead = 0
         st = None if rng.random() < 0.4 else rng.randrange(n)
         en = None if rng.random() < 0.4 else rng.randrange(n)
+        a = mlag if st is None else st
+        b = n - 1 - mlead if en is None else en
+        c['start'], c['end'] = st, en
+        c['periods'] = list(range(a, b + 1))
+        c['t'] = a if a <= b else 0
+        if rng.random() < 0.08:                            # a label the span does not hold
+            c[rng.choice(['start_raw', 'end_raw'])] = rng.choice([1999, 2000 + n, 0, -1])
+            c['periods'] = []
+    return c
+
+
+# C01-grammar programs for built submodels: (program template, names in fsic's order, check, endo, LAGS, LEADS)
+TEMPLATES = [
+    ('Y = {a} * X + {c}', ['Y', 'X'], [0], [0], 0, 0),
+    ('Y = {a} * Y[-1] + X', ['Y', 'X'], [0], [0], 1, 0),
+    ('Y = {a} * Y[1] + X', ['Y', 'X'], [0], [0], 0, 1),
+    ('C = {a} * Y + {c}\nY = C + G', ['C', 'Y', 'G'], [0, 1], [0, 1], 0, 0),
+    ('Y = {a} * Y[-2] + X[1]', ['Y', 'X'], [0], [0], 2, 1),
+    ('Y = X[-1] + {c}\nZ = {a} * Y', ['Y', 'Z', 'X'], [0, 1], [0, 1], 1, 0),
+    ('Y = {a} * X[2] + {c} * Y[-1]', ['Y', 'X'], [0], [0], 1, 2),
+]
+
+
+def built_case(rng, kind):
+    """linker over 1-4 submodels BUILT by fsic from C01-grammar programs with differing lags / leads; hooks cross-link them
+    (B.X = A.Y before each pass, linker variable = combination after it); solve_t at one period or solve() over a label range"""
+    ns = rng.choice([1, 2, 2, 3, 3, 4])
+    n = rng.randint(4, 7)
+    p = rng.randrange(n)
+    q_t = rng.random()
+    tol = rng.choice([TOL, TOL, 1e-3, 0.5])
+    mx = rng.choice([0, 1, 2, 3, 5, 8, 40, 60])
+    mn = rng.randint(0, min(mx, 4) + (1 if rng.random() < 0.1 else 0))
+    opts = dict(min_iter=mn, max_iter=mx, tol=lib.fhex(tol), failures=rng.choice(['raise', 'ignore', 'ignore']),
+                errors=rng.choice(['raise', 'raise', 'ignore', 'replace']), catch_first_error=rng.random() < 0.6)
+    subs = []
+    for i in range(ns):
+        tpl, names, check, endo, lg, ld = rng.choice(TEMPLATES)
+        prog = tpl.format(a=rng.choice(['0.5', '0.25', '-0.5', '1.0', '0.75', '2.0']), c=rng.choice(['0.0', '1.0', '-0.25', '0.5']))
+        d = {'id': i, 'program': prog, 'names': names, 'nvars': len(names), 'check': check, 'endo': endo, 'lags': lg, 'leads': ld,
+             'vals': [[lib.fhex(rng.choice([0.0, 0.5, 1.0, -1.0, 2.0, 0.125 * q])) for q in range(n)] for _ in names],
+             'status': ['-'] * n, 'iters': [-1] * n, 'passes': {}}
+        subs.append(d)
+    lo, hi = max(s['lags'] for s in subs), n - 1 - max(s['leads'] for s in subs)
+    if lo <= hi and rng.random() < 0.85:          # mostly a period at which every submodel has its lags and leads inside the span
+        p = rng.randint(lo, hi)
+    t = p if q_t < 0.7 else p - n
+    for d in subs:
+        if d['status'][p] == '-' and rng.random() < 0.15:
+            d['status'][p] = rng.choice(['.', 'F', 'E', 'S'])
+            d['iters'][p] = rng.randint(0, 9)
+    ncore = rng.choice([0, 1, 1, 2])
+    core = mk_comp(ncore, n, rng.sample(range(ncore), rng.randint(0, ncore)))
+    ids = list(range(ns))
+    sel = None
+    if rng.random() < 0.5:
+        sel = rng.sample(ids, rng.randint(0, ns))               # a subset in some order, no duplicates (see recorded_passes)
+        if rng.random() < 0.08:
+            sel.insert(rng.randint(0, len(sel)), 9)
+    positions = [p] if kind == 'solve_t' else list(range(n))
+    L = min(mx, 60)
+    hooks = {}
+    if rng.random() < 0.8:
+        links = []                                              # fixed cross-links, the same at every iteration
+        for _ in range(rng.randint(1, 3)):
+            dc, sc = rng.randrange(1, ns + 1), rng.randrange(1, ns + 1)
+            dnames, snames = subs[dc - 1]['names'], subs[sc - 1]['names']
+            exo = [i for i in range(len(dnames)) if i not in subs[dc - 1]['endo']]
+            links.append(['affine', dc, rng.choice(exo), lib.fhex(rng.choice([1.0, 0.5, -0.5, 0.25])),
+                          sc, rng.choice(subs[sc - 1]['endo']), lib.fhex(rng.choice([0.0, 0.0, 1.0]))])
+        after = []
+        if ncore:
+            sc = rng.randrange(1, ns + 1)
+            after.append(['affine', 0, rng.randrange(ncore), lib.fhex(rng.choice([1.0, 0.5])), sc, rng.choice(subs[sc - 1]['endo']), lib.fhex(0.0)])
+        for pos in positions:
+            hooks[str(pos)] = {'pre': [], 'post': [], 'before': [copy.deepcopy(links) for _ in range(L)], 'after': [copy.deepcopy(after) for _ in range(L)]}
+    c = mk_case(kind=kind, n=n, t=t, core=core, subs=subs, sel=sel, hooks=hooks, **opts)
+    if kind == 'solve':
+        if c['opts']['min_iter'] > c['opts']['max_iter']:
+            c['opts']['min_iter'] = c['opts']['max_iter']
+        mlag = max(s['lags'] for s in subs)
+        mlead = max(s['leads'] for s in subs)
+        st = None if rng.random() < 0.5 else rng.randrange(n)
+        en = None if rng.random() < 0.5 else rng.randrange(n)
         a = mlag if st is None else st
         b = n - 1 - mlead if en is None else en
         c['start'], c['end'] = st, en
@@ -1001,6 +1150,29 @@ def fixed_cases():
     out.append(mk_case(core=mk_comp(1, n, [0]), subs=two(settle([1.0, 1.5, 1.5]), [[['affine', 0, lib.fhex(0.5), 1, lib.fhex(0.0)]]] * 4),
                        hooks={'1': {'before': [[['affine', 2, 1, lib.fhex(1.0), 1, 0, lib.fhex(0.0)]]] * 4,
                                     'after': [[['affine', 0, 0, lib.fhex(0.5), 2, 0, lib.fhex(0.0)]]] * 4}}, max_iter=6))
+    # solve(): default range = [longest lag, n - 1 - longest lead]; both maxima come from the SAME later submodel (seed C08_a);
+    # reversed range; unknown labels; empty span
+    mk3 = lambda n, lagsleads: [mk_sub(i, 1, n, [0], lags=lg, leads=ld, passes={str(p): settle([1.0, 1.0]) for p in range(n)})
+                                for i, (lg, ld) in enumerate(lagsleads)]
+    for n, ll, st, en in [(6, [(0, 0), (2, 1)], None, None), (6, [(2, 1), (0, 0), (1, 3)], None, None), (5, [(1, 0), (0, 1)], 3, 1),
+                          (4, [(2, 2)], None, None), (5, [(0, 0)], 4, None), (5, [(1, 1)], None, 0)]:
+        subs = mk3(n, ll)
+        c = mk_case(kind='solve', n=n, t=0, subs=subs, max_iter=4, failures='ignore')
+        a = max(l for l, _ in ll) if st is None else st
+        b = n - 1 - max(d for _, d in ll) if en is None else en
+        c['start'], c['end'], c['periods'] = st, en, list(range(a, b + 1))
+        out.append(c)
+    for raw in ({'start_raw': 1999}, {'end_raw': 2004}, {'start_raw': 2001, 'end_raw': 1}):
+        c = mk_case(kind='solve', n=4, t=0, subs=mk3(4, [(0, 0), (1, 1)]), max_iter=4, failures='ignore')
+        c.update(start=None, end=None, periods=[], **raw)
+        out.append(c)
+    for subs in ([], mk3(0, [(0, 0)]), mk3(0, [(1, 0), (0, 2)])):
+        c = mk_case(kind='solve', n=0, t=0, subs=subs, max_iter=4)
+        c.update(start=None, end=None, periods=[])
+        out.append(c)
+        c = copy.deepcopy(c)
+        c['start_raw'] = 2000
+        out.append(c)
     return out
 
 
@@ -1010,6 +1182,8 @@ def gen(rng, tier):
     cases += lattice_cases(rng, 2, 2, 2) if quick else lattice_cases(rng, 2, 3, 2) + lattice_cases(rng, 3, 2, 2)
     cases += selection_cases(rng, 3 if quick else 4)
     cases += ctor_cases(rng, 300 if quick else 5000)
+    for _ in range(300 if quick else 6000):
+        cases.append(built_case(rng, 'solve_t' if rng.random() < 0.65 else 'solve'))
     n_rand = 2500 if quick else 80000
     for _ in range(n_rand):
         r = rng.random()
